@@ -218,3 +218,67 @@ impl<T> EventNode<T> {
         (unsafe { this.value.take().unwrap_unchecked() }, this.time)
     }
 }
+
+// VERIF: read-only structural walk used by the verification harness.
+#[cfg(petrichorit_des_verif)]
+impl<T> DualLinkedList<T> {
+    /// Walks the list front to back and returns `(time, id)` of every element,
+    /// checking link symmetry, sortedness and the stored length on the way.
+    pub(super) fn verif_walk(&self) -> Result<Vec<(Duration, usize)>, String> {
+        let mut out = Vec::with_capacity(self.len);
+        let head_ptr: *const EventNode<T> = &*self.head;
+        let tail_ptr: *const EventNode<T> = &*self.tail;
+        unsafe {
+            if !(*head_ptr).prev.is_null() {
+                return Err("head sentinel has a predecessor".into());
+            }
+            if !(*tail_ptr).next.is_null() {
+                return Err("tail sentinel has a successor".into());
+            }
+            let mut prev = head_ptr;
+            let mut cur: *const EventNode<T> = (*head_ptr).next;
+            let mut last_time = Duration::ZERO;
+            let mut steps = 0usize;
+            loop {
+                if cur.is_null() {
+                    return Err("null link before the tail sentinel".into());
+                }
+                if (*cur).prev.cast_const() != prev {
+                    return Err(format!("prev/next asymmetry at position {steps}"));
+                }
+                if cur == tail_ptr {
+                    break;
+                }
+                if (*cur).value.is_none() {
+                    return Err(format!("node without value at position {steps}"));
+                }
+                if (*cur).time < last_time {
+                    return Err(format!(
+                        "bucket not sorted at position {steps}: {:?} after {:?}",
+                        (*cur).time,
+                        last_time
+                    ));
+                }
+                last_time = (*cur).time;
+                out.push(((*cur).time, (*cur).id));
+                prev = cur;
+                cur = (*cur).next;
+                steps += 1;
+                if steps > self.len + 1 {
+                    return Err(format!(
+                        "list longer than its recorded length {}",
+                        self.len
+                    ));
+                }
+            }
+        }
+        if out.len() != self.len {
+            return Err(format!(
+                "recorded bucket length {} but {} nodes linked",
+                self.len,
+                out.len()
+            ));
+        }
+        Ok(out)
+    }
+}
